@@ -170,3 +170,19 @@ Proof.
                     c_hs := HsResume 1%N (Some 1005%Z) true; c_steps := [] |} ].
   eexists. split; [vm_compute; left; reflexivity|]. vm_compute. auto.
 Qed.
+
+(* ---- composition with C03 (lead) ---------------------------------------------------------------
+   The hypothesis [full_faithful] of C05_dispatch_real is exactly what C03 proves about every
+   handshake: if the records of the full handshakes in a history are the images of C03
+   handshake runs (any configuration, any peer script), every invoked authenticated handler
+   runs on a session that is REALLY authenticated / REALLY encrypting to the degree its
+   command's current policy demands. *)
+From Cedar Require Import Model.Handshake Proofs.C03 Proofs.C05C03.
+
+Theorem C05_dispatch_real_with_C03 : forall k evs i,
+  cache_faithful k ->
+  Forall from_c03 (history_fulls evs) ->
+  Forall entry_faithful (history_imports evs) ->
+  In i (history_invocations k evs) -> i_rawpath i = false -> meets_policy_real i.
+Proof. exact dispatch_real_composed. Qed.
+Print Assumptions C05_dispatch_real_with_C03.
